@@ -76,6 +76,9 @@ type TypeCheck struct {
 }
 type DefaultOf struct{ T *Type }
 
+// Arg: the I-th (0-based) command line argument converted to a Zahl — an input the optimiser cannot see
+type Arg struct{ I int }
+
 func (e *Lit) Ty() *Type       { return e.T }
 func (e *Var) Ty() *Type       { return e.T }
 func (e *Un) Ty() *Type        { return e.T }
@@ -89,6 +92,7 @@ func (e *FieldOf) Ty() *Type   { return e.T }
 func (e *StructLit) Ty() *Type { return e.T }
 func (e *TypeCheck) Ty() *Type { return Bool }
 func (e *DefaultOf) Ty() *Type { return e.T }
+func (e *Arg) Ty() *Type       { return Zahl }
 
 // ---------------------------------------------------------------- statements
 
@@ -170,4 +174,6 @@ type Program struct {
 	Structs []*Type
 	Funcs   []*Func
 	Main    []Stmt
+	Args    []string // command line arguments the reference run uses (see Arg)
+	UsesArgs bool
 }
